@@ -626,6 +626,27 @@ func (vc *VC) specCall(x CCall, env *SpecEnv) Term {
 			return vc.fmtFn(f.V, as)
 		}
 		return vc.specFail("sprintf needs a literal format")
+	case "emptymap":
+		// emptymap(T): the empty, non-nil map of map type T
+		if len(x.Args) == 1 {
+			tname := ""
+			switch tx := x.Args[0].(type) {
+			case CIdent:
+				tname = tx.Name
+			case CSel:
+				if id, ok := tx.X.(CIdent); ok {
+					tname = id.Name + "." + tx.Name
+				}
+			}
+			if t, err := vc.w.resolveTypeText(env.pkg, tname); err == nil {
+				if mt, ok := vc.underlying(t).(*types.Map); ok {
+					m := vc.emptyMap(vc.ss.sortOf(t), mt)
+					m.T = t
+					return m
+				}
+			}
+		}
+		return vc.specFail("emptymap needs a map type name")
 	case "mkstruct":
 		// mkstruct(T, f1, f2, ...): struct value with the fields in declaration order
 		if len(x.Args) == 0 {
